@@ -13,7 +13,7 @@ MEMBER_MAP_NAMES = ["owned_into", "ref_into", "into", "from_owned", "from_ref", 
                     "owned_try_into", "ref_try_into", "try_into", "try_from_owned", "try_from_ref", "try_from",
                     "try_map_owned", "try_map_ref", "try_map"]
 LEAF_TYPES = ["i32", "u8", "i64", "bool", "String", "u16", "char"]
-COUNTERPARTS = ["A", "B", "m::C", "::k::D", "G<i32>", "H::<u8>", "Q<'x, u8>", "crate::dto::E", "self::F", "super::K", "R<i32, u8,>"]
+COUNTERPARTS = ["A", "B", "m::C", "::k::D", "G<i32>", "H::<u8>", "Q<'x, u8>", "crate::dto::E", "self::F", "super::K", "R<i32, u8,>", "m::W<i32>", "crate::dto::X<'x, u8>"]
 
 
 class G:
@@ -341,6 +341,9 @@ def struct_parents(g):
         if g.chance(0.5) or (i == nf - 1 and not have_parent):
             have_parent = True
             f.ty = f"P{g.mark()}"
+            if g.chance(0.2):
+                # the flattened value's type may carry generic arguments (From impls construct it: the path stands in expression position there)
+                f.ty += r.choice(["<i32>", "<u8, bool>", "<'static>"])
             if g.chance(0.35):
                 f.attrs.append(Instr("parent", "parent", container=None, fields=None))
             else:
@@ -358,7 +361,7 @@ def struct_parents(g):
                     for _ in range(r.randint(1, 3)):
                         k = g.mark()
                         if depth < 2 and g.chance(0.3):
-                            xs.append(f"[parent({plist(depth + 1)})] q{k}: Q{k}")
+                            xs.append(f"[parent({plist(depth + 1)})] q{k}: Q{k}" + (r.choice(["<i32>", "<u8, bool>"]) if g.chance(0.2) else ""))
                         elif g.chance(0.3):
                             xs.append(f"[{r.choice(['map', 'from', 'into', 'map_owned', 'map_ref', 'into_existing', 'from_ref', 'owned_into'])}(m{k})] x{k}")
                         elif g.chance(0.2):
@@ -373,7 +376,7 @@ def struct_parents(g):
                 from_cps = {t.f["ty"] for t in it.attrs if t.kind == "trait" and any(k.startswith("from") for k in kinds_of(t.name))}
                 if c is not None and c not in from_cps and g.chance(0.6):
                     # only From impls construct the nested values: a nest dedicated to a counterpart that is only converted Into needs no types
-                    args = re.sub(r"(\] q\d+): Q\d+", r"\1", args)
+                    args = re.sub(r"(\] q\d+): Q\d+(<[^>]*>)?", r"\1", args)
                 f.attrs.append(Instr("parent", "parent", container=c, fields=args))
         it.fields.append(f)
     return it
@@ -382,7 +385,7 @@ def struct_parents(g):
 def enum_basic(g, n_cp=None):
     r = g.r
     n_cp = n_cp or r.choice([1, 1, 2])
-    cps = r.sample(["A", "B", "m::C", "G<i32>"], n_cp)
+    cps = r.sample(["A", "B", "m::C", "G<i32>", "m::W<i32>"], n_cp)
     it = Item("enum", "S")
     it.attrs = g.trait_set(cps, allow_existing=False)
     it.meta["cps"] = cps
